@@ -244,7 +244,9 @@ def translate_async(history, W: int, pids: PrefixIds) -> Dict[str, Any]:
         else:
             problems.append(f"unknown event {k}")
     if pfx is None:
-        pfx = pids.get("<no-store-op>")
+        # the attempt never touched the store (it failed during foreground staging): it has no barrier prefix at all,
+        # so it cannot share one with another attempt; give it a name of its own
+        pfx = pids.get(f"<no-store-op #{len(pids.ids)}>")
     return {"n": W, "pfx": pfx, "nw": nw, "pfail": pfail, "mfail": mfail, "events": evs, "problems": problems,
             "foreground": foreground}
 
